@@ -268,6 +268,16 @@ def builtin(it, name):
     return table.get(name, NotImplemented)
 
 
+class MaskIdx:
+    """np.nonzero(mask)[0]: the positions where a boolean vector is True (kept as the mask itself)"""
+
+    def __init__(self, mask):
+        self.mask = mask
+
+    def as_mask(self):
+        return self.mask
+
+
 class RowLabel:
     """the index label of row `i` of a table (whatever its value)"""
 
@@ -356,7 +366,10 @@ def ga_builtin(it, obj, name, args, kw):
     if name == "add_columns":
         d = obj.data.copy()
         for k, v in kw.items():
-            d.cols[k] = Vec(bcast(v, d.n))
+            if isinstance(v, Vec) and v.fresh and d.index != "range":
+                raise Raised("IndexMisalignment", f"add_columns({k}=<Series with a fresh 0..n-1 index>) on a table whose index is not known to be 0..n-1: "
+                             "DataFrame.assign aligns by label, so values land on the wrong rows / become NaN")
+            d.cols[k] = Vec(bcast(v, d.n), aligned=True)
         return GA(obj.cls, d, d.n, dict(obj.meta))
     if name == "keep_columns":
         d = DF({c: obj.data.cols[c] for c in args[0] if c in obj.data.cols}, obj.data.n, obj.data.index)
@@ -444,6 +457,8 @@ def load_subscript(it, obj, k):
             return DF({c: obj.cols[c] for c in k}, obj.n, obj.index)
         raise Undecided(f"DataFrame getitem {k!r}")
     if isinstance(obj, Vec):
+        if hasattr(k, "as_mask"):
+            k = k.as_mask()
         if isinstance(k, bool):
             raise Undecided("bool index")
         if isinstance(k, int):
@@ -549,6 +564,8 @@ def store_subscript(it, obj, k, v, aug=False):
             raise Undecided(f"table store with row key {mask!r}")
         return
     if isinstance(obj, Vec):
+        if hasattr(k, "as_mask"):
+            k = k.as_mask()
         if isinstance(k, Vec):
             newv = bcast(v, len(obj.v))
             obj.v = [nv if m is True else ov for m, ov, nv in zip(k.v, obj.v, newv)]
@@ -893,6 +910,8 @@ def vec_method(it, obj, name, args, kw):
     if name in ("cumsum", "cummax", "cummin", "diff", "shift", "rolling", "sort_values", "argsort", "rank", "searchsorted",
                 "groupby", "ewm", "expanding", "cumprod", "sample", "nlargest", "nsmallest", "corr"):
         return Opaque(f"mixed:{name}")
+    if name == "take" and args and hasattr(args[0], "as_mask"):
+        return _maskload(obj, args[0].as_mask())
     if name == "equals":
         o = args[0]
         return isinstance(o, Vec) and len(o.v) == len(obj.v) and all(same(a, b) for a, b in zip(obj.v, o.v))
@@ -1064,6 +1083,8 @@ def ext_call(it, dotted, args, kw):
         return Opaque(name)
     if name in ("np.isnan", "pd.isnull", "pd.isna", "math.isnan"):
         return lift1(is_nan, args[0])
+    if name == "np.nonzero" and args and isinstance(args[0], Vec):
+        return (MaskIdx(args[0]),)
     if name in ("np.isfinite", "math.isfinite"):
         def fin(x):
             if is_nan(x):
